@@ -243,6 +243,21 @@ def main():
     elif cmd == 'judge':
         load_cases()
         ms = [m for m in json.load(open(sys.argv[2])) if m.get('survives_repo_tests')]
+        # /repo may have moved on since the survivors were collected (a "fix:" commit shifts offsets): find each
+        # mutant again in the current sources by file, operator and text, nearest line first
+        current = all_mutants()
+        moved = []
+        for m in ms:
+            same = [c for c in current if (c['file'], c['what'], c['old'], c['new']) ==
+                    (m['file'], m['what'], m['old'], m['new'])]
+            if not same:
+                print('gone from the current tree:', m['file'], m['line'], m['what'], flush=True)
+                continue
+            c = dict(min(same, key=lambda c: abs(c['line'] - m['line'])))
+            c['survives_repo_tests'] = True
+            c['line_when_collected'] = m['line']
+            moved.append(c)
+        ms = moved
         out = sys.argv[3]
         div = 4
         if '--cases-div' in sys.argv:
@@ -250,9 +265,9 @@ def main():
         done = []
         if os.path.exists(out):
             done = json.load(open(out))
-        seen = {(m['file'], m['start'], m['new']) for m in done}
+        seen = {(m['file'], m['what'], m['old'], m['new'], m.get('line_when_collected')) for m in done}
         for m in ms:
-            if (m['file'], m['start'], m['new']) in seen:
+            if (m['file'], m['what'], m['old'], m['new'], m.get('line_when_collected')) in seen:
                 continue
             m['caught_by'] = judge(m, div, first='--first' in sys.argv)
             done.append(m)
